@@ -77,6 +77,21 @@ func hugeRun(args []string) error {
 				out(fmt.Sprintf("decode a %d-byte string (major type %d) of which half is present", n, mt), []fact{f("error", true, err != nil)})
 			}
 		}
+	case "cbordec2g":
+		// the 32-bit boundary of a string length with all of the content really present: 2^31 bytes delivered by a source that
+		// generates them on the fly (the input itself is never held in memory), followed by uint 42
+		n := 1 << 31
+		src := &patternSrc{head: append([]byte{0x5a, 0x80, 0x00, 0x00, 0x00}), n: n, tail: []byte{0x18, 0x2a}}
+		d := verifapi.NewCborDecoder(src)
+		v, err := d.DecodeByteString()
+		nx, err2 := d.DecodeUint()
+		want := sha256.New()
+		for m := 0; m < n>>20; m++ {
+			want.Write(patternBlocks[m%26])
+		}
+		got := sha256.Sum256(v)
+		out("decode a 2^31-byte byte string (shortest head 5a 80 00 00 00) followed by uint 42", []fact{f("error", false, err != nil), f("length", n, len(v)),
+			f("content sha-256", hex.EncodeToString(want.Sum(nil)), hex.EncodeToString(got[:])), f("next item", "42 <nil>", fmt.Sprint(nx, err2))})
 	case "cborenc":
 		for _, n := range sizes {
 			content := randBytes(r, n)
@@ -226,5 +241,46 @@ func beU64(b []byte) uint64 {
 }
 
 var _ = io.EOF
+
+// the pattern: MiB number m holds block m % 26, block s = bytes 'a' + (j*7 + s) % 26
+var patternBlocks = func() [][]byte {
+	bs := make([][]byte, 26)
+	for s := range bs {
+		bs[s] = make([]byte, 1<<20)
+		for j := range bs[s] {
+			bs[s][j] = byte('a' + (j*7+s)%26)
+		}
+	}
+	return bs
+}()
+
+// patternSrc delivers head, then n pattern bytes, then tail, generated on the fly
+type patternSrc struct {
+	head, tail []byte
+	n, pos     int
+}
+
+func (s *patternSrc) Read(p []byte) (int, error) {
+	total := len(s.head) + s.n + len(s.tail)
+	if s.pos >= total {
+		return 0, io.EOF
+	}
+	var k int
+	switch {
+	case s.pos < len(s.head):
+		k = copy(p, s.head[s.pos:])
+	case s.pos < len(s.head)+s.n:
+		i := s.pos - len(s.head)
+		blk := patternBlocks[(i>>20)%26][i&(1<<20-1):]
+		if len(blk) > s.n-i {
+			blk = blk[:s.n-i]
+		}
+		k = copy(p, blk)
+	default:
+		k = copy(p, s.tail[s.pos-len(s.head)-s.n:])
+	}
+	s.pos += k
+	return k, nil
+}
 
 func init() { register("huge-run", hugeRun) }
